@@ -71,9 +71,23 @@ def check_table(res, repo):
         else:
             res.fail(rule, finding("C08", rule, ams, ams.node, "Amorph.settings does not emit the analysis keyword arguments (they live in _analysis_kwargs, which the underscore filter drops)", construct="Amorph.settings: kwargs"))
     bi = repo.method("hexital.core.hexital", "Hexital", "_build_indicator")
-    t = ast.unparse(bi.node)
-    for need in ("INDICATOR_MAP[indicator_name]", "PATTERN_MAP | MOVEMENT_MAP", "analysis_map[analysis_name]"):
-        if need in t:
+    # the reader: class looked up in INDICATOR_MAP under the popped "indicator" key, analysis in PATTERN_MAP | MOVEMENT_MAP under the popped "analysis" key
+    asg = {}
+    for n in ast.walk(bi.node):
+        if isinstance(n, ast.Assign) and len(n.targets) == 1 and isinstance(n.targets[0], ast.Name):
+            asg.setdefault(n.targets[0].id, []).append(n.value)
+
+    def popped(name, key):
+        return any(isinstance(v, ast.Call) and call_name(v) == "pop" and v.args and isinstance(v.args[0], ast.Constant) and v.args[0].value == key for v in asg.get(name, []))
+
+    def is_union(name):
+        return any(isinstance(v, ast.BinOp) and isinstance(v.op, ast.BitOr) and {ast.unparse(v.left), ast.unparse(v.right)} == {"PATTERN_MAP", "MOVEMENT_MAP"} for v in asg.get(name, []))
+
+    subs = [n for n in ast.walk(bi.node) if isinstance(n, ast.Subscript) and isinstance(n.value, ast.Name) and isinstance(n.slice, ast.Name)]
+    found_ind = any(n.value.id == "INDICATOR_MAP" and popped(n.slice.id, "indicator") for n in subs)
+    found_an = any(is_union(n.value.id) and popped(n.slice.id, "analysis") for n in subs)
+    for ok_, need in ((found_ind, 'INDICATOR_MAP[<popped "indicator" name>]'), (found_an, '(PATTERN_MAP | MOVEMENT_MAP)[<popped "analysis" name>]')):
+        if ok_:
             res.ok(rule, {"reader": "_build_indicator", "looks up": need})
         else:
             res.errors.append(f"_build_indicator no longer contains `{need}` (reader of the table changed; re-derive the rule)")
@@ -121,8 +135,12 @@ def check_binding(res, repo, prop="C08", raw_required=True):
         res.ok(rule, {"site": vi.where, "kw": f"timeframe={kws['timeframe']}"})
     else:
         res.fail(rule, finding(prop, rule, vi, c, "the new manager must collapse to the indicator's timeframe", construct=f"CandleManager kw timeframe={kws.get('timeframe')}"))
-    t = ast.unparse(bind_loop)
-    if "self._candles[manager.name] = manager" in t.replace("'", '"') and f"self._candles[{lv}.timeframe]" in t and "self._candles[DEFAULT_CANDLES]" in t:
+    # registry: the new manager M is stored under its own name, timeframe indicators look their manager up by their timeframe, the rest use the default
+    mvar = next((ast.unparse(st.targets[0]) for st in ast.walk(bind_loop) if isinstance(st, ast.Assign) and st.value is c and isinstance(st.targets[0], ast.Name)), None)
+    stores = [st for st in ast.walk(bind_loop) if isinstance(st, ast.Assign) and isinstance(st.targets[0], ast.Subscript) and ast.unparse(st.targets[0].value) == "self._candles"]
+    registered = mvar is not None and any(ast.unparse(st.targets[0].slice) in (f"{mvar}.name", kws.get("timeframe", "?")) and ast.unparse(st.value) == mvar for st in stores)
+    bound = [ast.unparse(st.value).replace("'", '"') for st in ast.walk(bind_loop) if isinstance(st, ast.Assign) and any(ast.unparse(t) == f"{lv}.candle_manager" for t in st.targets)]
+    if registered and f"self._candles[{lv}.timeframe]" in bound and "self._candles[DEFAULT_CANDLES]" in bound:
         res.ok(rule, {"site": vi.where, "why": "managers are registered and looked up by timeframe; indicators without timeframe use the default manager"}, nontrivial="validate:registry")
     else:
         res.fail(rule, finding(prop, rule, vi, bind_loop, "managers must be registered under their name and looked up by the indicator's timeframe", construct="binding loop: registry"))
